@@ -1,6 +1,7 @@
 package main
 
 import (
+	"strconv"
 	"bytes"
 	"context"
 	"encoding/json"
@@ -221,6 +222,10 @@ func (e *Env) RunOpt(p *plan.Plan, wallCap time.Duration, eventLog string, gomax
 	ctx, cancel := context.WithTimeout(context.Background(), wallCap)
 	defer cancel()
 	cmd := exec.CommandContext(ctx, bin, "-test.run", "^TestWorker$", "-test.timeout", "0")
+	if p.Proc != nil && p.Proc.CPUs > 0 && tasksetPath != "" {
+		// the number of CPUs the runtime sees: an affinity mask of that many CPUs
+		cmd = exec.CommandContext(ctx, tasksetPath, "-c", fmt.Sprintf("0-%d", p.Proc.CPUs-1), bin, "-test.run", "^TestWorker$", "-test.timeout", "0")
+	}
 	cmd.Dir = dir
 	gomax := os.Getenv("VERIF_WORKER_GOMAXPROCS")
 	if gomax == "" {
@@ -228,6 +233,9 @@ func (e *Env) RunOpt(p *plan.Plan, wallCap time.Duration, eventLog string, gomax
 	}
 	if len(gomaxOpt) > 0 {
 		gomax = gomaxOpt[0]
+	}
+	if p.Proc != nil && p.Proc.GOMAXPROCS > 0 && len(gomaxOpt) == 0 {
+		gomax = strconv.Itoa(p.Proc.GOMAXPROCS)
 	}
 	cmd.Env = append(os.Environ(),
 		"VERIF_PLAN="+planPath,
@@ -239,6 +247,16 @@ func (e *Env) RunOpt(p *plan.Plan, wallCap time.Duration, eventLog string, gomax
 		"GOTRACEBACK=single",
 		"GOMEMLIMIT=3GiB",
 	)
+	if p.Proc != nil {
+		keys := make([]string, 0, len(p.Proc.Env))
+		for k := range p.Proc.Env {
+			keys = append(keys, k)
+		}
+		sort.Strings(keys)
+		for _, k := range keys {
+			cmd.Env = append(cmd.Env, k+"="+p.Proc.Env[k])
+		}
+	}
 	if eventLog != "" {
 		cmd.Env = append(cmd.Env, "VERIF_EVENTLOG="+eventLog)
 	}
@@ -564,3 +582,12 @@ func poolOverlay(scratch string) (string, error) {
 	}
 	return ov, nil
 }
+
+// tasksetPath: util-linux taskset, used to show the worker a given number of CPUs ("" if absent).
+var tasksetPath = func() string {
+	p, err := exec.LookPath("taskset")
+	if err != nil {
+		return ""
+	}
+	return p
+}()
